@@ -24,6 +24,8 @@ git checkout -q -- src Cargo.toml
 echo "== demo without change"; cargo test --offline ${DEMO_FLAGS:-} --test $dn 2>&1 | grep -E "^test result" > $out/demo_without_change.txt; cat $out/demo_without_change.txt
 git apply $out/patch.diff
 cd /verif
+# several seeded.sh may confirm their worktrees in parallel; the part that touches /repo is serialised
+exec 9>/tmp/wt/repo.lock; flock 9
 if ! git -C /repo apply --check $out/patch.diff 2>/dev/null; then echo "PATCH DOES NOT APPLY to /repo"; exit 3; fi
 git -C /repo apply $out/patch.diff
 : > $out/checks.txt
